@@ -259,6 +259,10 @@ func c07Prelude() {
 
 func init() {
 	register(&Check{ID: "C07", Engine: "B", Run: func(c *Ctx) {
+		if msg := hollowFirst(); msg != "" {
+			// alias types first met in hollow form: the order in which values of a type arrive must not matter
+			c.Violation("hollow-value-seen-first", "after nil pointers / zero values of an alias type had been the first values of that type the library saw: "+msg, nil, 0)
+		}
 		c07Prelude()
 		trees := c07Trees(c)
 		maxLen := 3
